@@ -213,6 +213,34 @@ def rule_r3(ctx) -> RuleResult:
                        "formatting is not invertible when both characters are equal", 0))
     else:
         rr.ok("localization.json", "separator != decimal point in all {} locales".format(len(locs)))
+    # the data the functions see is the data as shipped: LOCALIZATION_DATA is bound to the result of
+    # json.load (or to the literal default when the locale has no file) and never patched afterwards.
+    # Several locales deliberately ship empty values (grouping_separator "" / grouping_method []); a
+    # loader that skips falsy values gives them ',' and makes separator == decimal point.
+    init = ctx.fn("core.Wtp.init_localization_data")
+    n_bind = 0
+    for dotted, m_, f_ in ctx.index.all_functions():
+        for n in walk_no_nested(f_):
+            tgs = n.targets if isinstance(n, ast.Assign) else [n.target] if isinstance(n, (ast.AnnAssign, ast.AugAssign)) else []
+            val = getattr(n, "value", None)
+            for t in tgs:
+                if isinstance(t, ast.Attribute) and t.attr == "LOCALIZATION_DATA" and val is not None:
+                    n_bind += 1
+                    if isinstance(n, ast.AugAssign) or not (isinstance(val, ast.Dict) or (isinstance(val, ast.Call) and unparse(val.func) == "json.load")):
+                        rr.bad(Finding("C18.R3", "src/wikitextprocessor/core.py", dotted, unparse(n)[:80],
+                                       "LOCALIZATION_DATA is not bound to the shipped file's content as loaded", n.lineno))
+                    else:
+                        rr.ok(dotted, unparse(n)[:60], {"binding": unparse(val)[:40]})
+                elif isinstance(t, ast.Subscript) and isinstance(t.value, ast.Attribute) and t.value.attr == "LOCALIZATION_DATA":
+                    rr.bad(Finding("C18.R3", ctx.index.mod(dotted.split(".")[0]).relpath, dotted, unparse(n)[:80],
+                                   "entries of LOCALIZATION_DATA are written one by one: values the locale file sets deliberately (\"\" / []) can be "
+                                   "dropped or altered, e.g. separator and decimal point become the same character for bg, pt, sr ...", n.lineno))
+            if isinstance(n, ast.Call) and isinstance(n.func, ast.Attribute) and n.func.attr in ("update", "setdefault", "pop", "clear") \
+                    and isinstance(n.func.value, ast.Attribute) and n.func.value.attr == "LOCALIZATION_DATA":
+                rr.bad(Finding("C18.R3", ctx.index.mod(dotted.split(".")[0]).relpath, dotted, unparse(n)[:80],
+                               "LOCALIZATION_DATA is modified after loading", n.lineno))
+    if n_bind == 0:
+        raise AnalysisError("no binding of LOCALIZATION_DATA found ({} analysed)".format(init.name))
     fn = ctx.fn("parserfns.formatnum_fn")
     # the early return `if sep in X: return arg0`
     tests = [n for n in walk_no_nested(fn) if isinstance(n, ast.If) and isinstance(n.test, ast.Compare) and isinstance(n.test.ops[0], ast.In)
